@@ -4,6 +4,7 @@
 set -u
 NAME=$1; shift
 export GOFLAGS=-mod=mod GOPROXY=off GOSUMDB=off GOTOOLCHAIN=local
+export VERIF_SCRATCH_EVIDENCE=/tmp/seed-evidence   # runs against a changed library never touch /verif/evidence
 WT=/tmp/sr-$NAME
 git -C /repo worktree remove --force $WT 2>/dev/null
 git -C /repo worktree add --detach $WT -q || exit 2
@@ -29,4 +30,3 @@ json.dump(m,open(p,'w'),indent=1)
 PY
 done
 git -C /repo worktree remove --force $WT
-(cd /verif && ./check "$1" --tier quick >/dev/null 2>&1)
